@@ -337,6 +337,65 @@ fn check_blocks(m: usize, nblocks: usize, stats: &mut Stats) -> Outcome {
     bad.unwrap_or(Outcome::Ok)
 }
 
+/// (e) large m, very short histories: every history of 1 and 2 draws (all choices), and of 3-4 draws with small choices,
+/// then reset, then m draws under the all-zero script: the result must be the fresh instance's (the identity order)
+fn check_short_histories_large_m(m: usize, stats: &mut Stats) -> Outcome {
+    let zero_words: Vec<u64> = vec![word_for_k(0); m];
+    let fresh = match guarded_mut(|| {
+        let mut fy = FYshuffle::new(m);
+        draw_n(&mut fy, &zero_words, m).out
+    }) {
+        Ok(v) => v,
+        Err(p) => return Outcome::Violation(format!("m={} fresh instance: panic {}", m, p)),
+    };
+    let mut histories: Vec<Vec<usize>> = Vec::new();
+    for c0 in 0..m {
+        histories.push(vec![c0]);
+    }
+    for c0 in 0..m {
+        for c1 in 0..(m - 1) {
+            if m <= 200 || c0 < 24 || c1 < 24 {
+                histories.push(vec![c0, c1]);
+            }
+        }
+    }
+    for c0 in 0..6 {
+        for c1 in 0..6 {
+            for c2 in 0..6 {
+                histories.push(vec![c0, c1, c2]);
+                for c3 in 0..4 {
+                    histories.push(vec![c0, c1, c2, c3]);
+                }
+            }
+        }
+    }
+    for h in histories {
+        let prew = words_for_choices(m, 0, &h);
+        let r = guarded_mut(|| {
+            let mut fy = FYshuffle::new(m);
+            let _ = draw_n(&mut fy, &prew, h.len());
+            fy.reset();
+            let d = draw_n(&mut fy, &zero_words, m);
+            (d.out, is_perm(fy.get_values()))
+        });
+        stats.history_runs += 1;
+        stats.draws += (h.len() + m) as u64;
+        match r {
+            Err(p) => return Outcome::Violation(format!("m={} history {:?} then reset: panic {}", m, h, p)),
+            Ok((out, vperm)) => {
+                if out != fresh || !vperm {
+                    let bad = (0..m).find(|i| out[*i] != fresh[*i]).unwrap_or(0);
+                    return Outcome::Violation(format!(
+                        "m={}: after a history of {} draws (choices {:?}) and reset, {} draws under the all-zero script differ from a fresh instance at draw {} ({} instead of {}); block is a permutation: {}",
+                        m, h.len(), h, m, bad, out[bad], fresh[bad], is_perm(&out)
+                    ));
+                }
+            }
+        }
+    }
+    Outcome::Ok
+}
+
 #[derive(Default)]
 struct Stats {
     scripts: u64,
@@ -411,6 +470,12 @@ pub fn run(ctx: &Ctx) -> i32 {
             return c;
         }
     }
+    for &m in &ctx.pick(vec![64usize, 128, 192, 256, 1000], vec![64, 128, 129, 192, 256, 320, 1000, 4096]) {
+        let o = check_short_histories_large_m(m, &mut st);
+        if let Err(c) = handle(ctx, o, format!("short-history-large-m:m={}", m), json!({"kind": "short-history", "m": m})) {
+            return c;
+        }
+    }
     let blocks: Vec<(usize, usize)> = if ctx.quick() { vec![(1, 3), (2, 3), (3, 3), (4, 2), (5, 2)] } else { vec![(1, 4), (2, 4), (3, 3), (4, 3), (5, 2), (6, 2)] };
     for &(m, nb) in &blocks {
         let o = check_blocks(m, nb, &mut st);
@@ -439,7 +504,7 @@ pub fn run(ctx: &Ctx) -> i32 {
         "exhaustive": true,
         "evaluations": execs,
         "distinct_nontrivial": st.distinct_perms,
-        "rule": "every script (one generator word per draw, the midpoint of each of the r=m-cursor equal sub-intervals) is run on the real FYshuffle; a case is distinct by its output order; (a) script->order is a bijection onto the m! orders, each script being a product of intervals of measure prod 1/r up to one 2^-52 word per boundary, (b) interval ends and the largest generator value stay in range for every r<=64 and selected large r, (c) every pre-reset history then reset equals a fresh instance, (d) every block of m draws without reset is a permutation",
+        "rule": "every script (one generator word per draw, the midpoint of each of the r=m-cursor equal sub-intervals) is run on the real FYshuffle; a case is distinct by its output order; (a) script->order is a bijection onto the m! orders, each script being a product of intervals of measure prod 1/r up to one 2^-52 word per boundary, (b) interval ends and the largest generator value stay in range for every r<=64 and selected large r, (c) every pre-reset history then reset equals a fresh instance (all histories for m<=4(5); for m in {64,128,192,256,1000,(4096)} all histories of 1-2 draws and small-choice histories of 3-4 draws), (d) every block of m draws without reset is a permutation",
         "max_m_bijection": max_m,
         "scripts": st.scripts,
         "distinct_orders_total": st.distinct_perms,
@@ -471,6 +536,7 @@ pub fn replay(_ctx: &Ctx, case: &Value) -> Result<(bool, String), String> {
             check_boundaries(r, &boundary_cs(r), &mut st)
         }
         Some("history") => check_history(case["m"].as_u64().ok_or("m")? as usize, case["hmax"].as_u64().ok_or("hmax")? as usize, &mut st),
+        Some("short-history") => check_short_histories_large_m(case["m"].as_u64().ok_or("m")? as usize, &mut st),
         Some("blocks") => check_blocks(case["m"].as_u64().ok_or("m")? as usize, case["nblocks"].as_u64().ok_or("nblocks")? as usize, &mut st),
         _ => return Err("unknown case kind".into()),
     };
